@@ -190,4 +190,60 @@ theorem tie_skel_linkedBuffer_copyWriteAndFlush : Gen.Skel.linkedBuffer_copyWrit
   "return written, err",
   "}"] := by rfl
 
+/-! further functions on this property's paths (any edit to them is reported) -/
+
+theorem tie_skel_Listen : Gen.Skel.Listen = [
+  "func Listen(shmIPCAddress string) (net.Listener, error) {",
+  "return ListenWithBacklog(shmIPCAddress, defaultBacklog)",
+  "}"] := by rfl
+
+theorem tie_skel_ListenWithBacklog : Gen.Skel.ListenWithBacklog = [
+  "func ListenWithBacklog(shmIPCAddress string, backlog int) (net.Listener, error) {",
+  "rawListener, err := net.Listen(\"unix\", shmIPCAddress)",
+  "if err != nil {",
+  "return nil, err",
+  "}",
+  "return newListener(rawListener, backlog), nil",
+  "}"] := by rfl
+
+theorem tie_skel_listener_Addr : Gen.Skel.listener_Addr = [
+  "func (l *listener) Addr() net.Addr {",
+  "return l.listener.Addr()",
+  "}"] := by rfl
+
+theorem tie_skel_streamWrapper_SetDeadline : Gen.Skel.streamWrapper_SetDeadline = [
+  "func (s *streamWrapper) SetDeadline(t time.Time) error {",
+  "return s.stream.SetDeadline(t)",
+  "}"] := by rfl
+
+theorem tie_skel_streamWrapper_SetReadDeadline : Gen.Skel.streamWrapper_SetReadDeadline = [
+  "func (s *streamWrapper) SetReadDeadline(t time.Time) error {",
+  "return s.stream.SetReadDeadline(t)",
+  "}"] := by rfl
+
+theorem tie_skel_streamWrapper_SetWriteDeadline : Gen.Skel.streamWrapper_SetWriteDeadline = [
+  "func (s *streamWrapper) SetWriteDeadline(t time.Time) error {",
+  "return s.stream.SetWriteDeadline(t)",
+  "}"] := by rfl
+
+theorem tie_skel_streamWrapper_LocalAddr : Gen.Skel.streamWrapper_LocalAddr = [
+  "func (s *streamWrapper) LocalAddr() net.Addr {",
+  "return s.localAddr",
+  "}"] := by rfl
+
+theorem tie_skel_streamWrapper_RemoteAddr : Gen.Skel.streamWrapper_RemoteAddr = [
+  "func (s *streamWrapper) RemoteAddr() net.Addr {",
+  "return s.remoteAddr",
+  "}"] := by rfl
+
+theorem tie_skel_Stream_LocalAddr : Gen.Skel.Stream_LocalAddr = [
+  "func (s *Stream) LocalAddr() net.Addr {",
+  "return s.session.netConn.LocalAddr()",
+  "}"] := by rfl
+
+theorem tie_skel_Stream_RemoteAddr : Gen.Skel.Stream_RemoteAddr = [
+  "func (s *Stream) RemoteAddr() net.Addr {",
+  "return s.session.netConn.RemoteAddr()",
+  "}"] := by rfl
+
 end Tie.C19
